@@ -107,13 +107,17 @@ Shortest(T) == CHOOSE t \in T : \A u \in T : Len(t) <= Len(u)
 \* 5894b0a 849a96f: they are kept as a diagnosis of what a rejection looks like, none of them is a known finding.)
 \* fx: a press of a character key that is already down reached the OS while the hold was in the sharp zone (every
 \* held key was pressed while zippychord was certainly enabled: it knows them) - unlike fd never a known finding.
+\* fe: a top-level chord with an empty expansion (the prefix of a line whose first chord has no line of its own) was
+\* completed while the follow-up context of another chord was pending.
 Class(m, rule) ==
   IF m.fx THEN " class=held-key-not-retyped"
+  ELSE IF m.fe THEN " class=empty-prefix-chord-after-pending-followups"
   ELSE IF m.fd THEN " class=key-already-down"
   ELSE IF m.fh THEN " class=followup-in-same-hold"
   ELSE IF m.fc THEN " class=followup-first-key-in-no-top-level-chord"
   ELSE IF (rule = "T4" /\ m.fp >= 1) \/ m.fp = 2 THEN " class=supersede-after-prefix-reuse"
   ELSE IF m.fs THEN " class=shift-prefix-reuse"
+  ELSE IF m.fq THEN " class=punctuation-key-is-chord-key"
   ELSE IF m.fu THEN " class=punctuation"
   ELSE " class=none"
 
@@ -121,7 +125,7 @@ MonInit(p) ==
   [p |-> p, pend |-> <<>>, held |-> <<>>, um |-> {}, os |-> {}, buf |-> <<>>, neg |-> 0, exp |-> <<>>,
    zs |-> "on", ph |-> "S", good |-> FALSE, el |-> 0, quiet |-> p.qcap,
    ctx |-> <<>>, ctxSure |-> TRUE, ctxBase |-> <<>>, last |-> "none", sp |-> FALSE, cn |-> FALSE, ck |-> FALSE,
-   fa |-> 0, fp |-> 0, fs |-> FALSE, fd |-> FALSE, fu |-> FALSE, fc |-> FALSE, fh |-> FALSE, fx |-> FALSE, dn |-> FALSE, sa |-> FALSE, fo |-> <<>>, err |-> ""]
+   fa |-> 0, fp |-> 0, fs |-> FALSE, fd |-> FALSE, fu |-> FALSE, fc |-> FALSE, fh |-> FALSE, fe |-> FALSE, fq |-> FALSE, fx |-> FALSE, dn |-> FALSE, sa |-> FALSE, fo |-> <<>>, err |-> ""]
 
 \* ---- the actual text: OS events applied to the buffer ---------------------------------------
 RECURSIVE Apply(_, _)
@@ -231,7 +235,8 @@ PressChar(m, k) ==
                  !.ph = IF ambLit THEN "M" ELSE ph1, !.good = FALSE, !.cn = TRUE, !.ck = FALSE,
                  !.fa = OMin(@ + 1, 3), !.fo = OutOf(p, r.c), !.fu = @ \/ isPunct,
                  !.fp = IF @ >= 1 THEN 2 ELSE IF share(r.c) THEN 1 ELSE 0,
-                 !.fs = @ \/ (share(r.c) /\ shiftHeld), !.fh = @ \/ sameHold(r.c), !.sa = @ \/ shiftHeld, !.fx = @ \/ sharpDup]
+                 !.fs = @ \/ (share(r.c) /\ shiftHeld), !.fh = @ \/ sameHold(r.c), !.sa = @ \/ shiftHeld, !.fx = @ \/ sharpDup,
+                 !.fe = @ \/ (OutOf(p, r.c) = <<>> /\ Len(r.c) = 1 /\ m.ctx # <<>>)]
   ELSE [m EXCEPT !.exp = r.t, !.el = IF first THEN 0 ELSE @, !.last = "lit", !.quiet = 0, !.sp = FALSE,
                  \* a key that cannot continue a follow-up chord ends the pending context - certainly so only in the
                  \* sharp zone (with extra keys held etc. zippychord may see another key set: the context becomes unsure)
@@ -245,7 +250,8 @@ PressChar(m, k) ==
                         THEN (IF boundary /\ sharpWantsAct THEN "X"
                               ELSE IF partialTop \/ (partialCtx /\ ctxOk) THEN "S" ELSE "M")
                         ELSE ph1,
-                 !.good = FALSE, !.fx = @ \/ sharpDup, !.fu = @ \/ isPunct, !.fc = @ \/ (m.ctx # <<>> /\ partialCtx /\ ~partialTop)]
+                 \* fq: the punctuation key that deleted a smart space is itself a key of a top-level chord
+                 !.good = FALSE, !.fx = @ \/ sharpDup, !.fu = @ \/ isPunct, !.fq = @ \/ (isPunct /\ partialTop), !.fc = @ \/ (m.ctx # <<>> /\ partialCtx /\ ~partialTop)]
 
 ReleaseChar(m, k) ==
   LET p == m.p
@@ -284,7 +290,7 @@ EndChecks(m) ==
   THEN Fail(m, "C20 T1: text on screen differs from the expected text (expansion / literal typing)" \o Class(m, "T1"))
   ELSE IF m.os # m.um THEN Fail(m, "C20 T3: a key is still down at the OS although all keys are released")
   ELSE \* commit: forget the text no later rule can refer to
-       LET m0 == [m EXCEPT !.fa = 0, !.fp = 0, !.fs = FALSE, !.fd = FALSE, !.fu = FALSE, !.fc = FALSE, !.fh = FALSE, !.fx = FALSE,
+       LET m0 == [m EXCEPT !.fa = 0, !.fp = 0, !.fs = FALSE, !.fd = FALSE, !.fu = FALSE, !.fc = FALSE, !.fh = FALSE, !.fx = FALSE, !.fq = FALSE, !.fe = IF m.ctx = <<>> THEN FALSE ELSE @,
                             !.fo = IF m.ctx = <<>> THEN <<>> ELSE @] IN
        \* (a pending follow-up context keeps the antecedent's expansion, a pending smart space keeps the space)
        LET n == IF m.ctx # <<>> THEN Len(m.ctxBase) ELSE IF m.sp THEN OMax(Len(m.exp) - 1, 0) ELSE Len(m.exp) IN
